@@ -28,6 +28,8 @@ static inline int myth_spin_lock_body(myth_spinlock_t *lock) {
   int failed = 0;
   while (!myth_spin_trylock_body(lock)) {
     failed++;
+    MYTH_VERIF_SPIN(2);
+    MYTH_VERIF_FSPIN("spin");
   }
   return failed;
 }
@@ -39,6 +41,7 @@ static inline int myth_compare_and_set_int(volatile int * a, int oldv, int newv)
 static inline int myth_spin_trylock_body(myth_spinlock_t *lock) {
   if (myth_compare_and_set_int(&lock->locked, 0, 1)) {
     myth_rwbarrier();
+    MYTH_VERIF_EVLOCK("SpinAcq", lock);
     return 1;
   } else {
     return 0;
@@ -47,6 +50,8 @@ static inline int myth_spin_trylock_body(myth_spinlock_t *lock) {
 
 static inline int myth_spin_unlock_body(myth_spinlock_t *lock) {
   myth_rwbarrier();
+  MYTH_VERIF_FPOINT("uls");
+  MYTH_VERIF_EVLOCK("SpinRel", lock);
   lock->locked = 0;
   return 0;
 }
